@@ -9,8 +9,12 @@ Deductive:
   vertex" / "tangent to every face", the returned ball is (|x|, x + v0) resp. (x[3], x[:3]), a ball is returned only
   if the residual test passes whenever the system is over-determined, and that test is invariant under scaling
   of the shape (the absolute-tolerance defect of the unchanged tree failed exactly this clause).
-Bounded: miniball-based minimal bounding balls (containment, minimality by support points) and existence /
-non-existence on tangential, cyclic and generic shapes at scales 1e-3 .. 1e3.
+* minimal bounding balls (contracts/c13_minball.py): every path of the retry loop of Polygon.minimal_bounding_circle and
+  Polyhedron.minimal_bounding_sphere (all 2047 sequences of failed attempts): the returned ball is the preimage of
+  miniball's ball under an isometry that carries the vertices onto miniball's input, and it contains every vertex
+  (the code's own containment test); RuntimeError only after ten failed attempts.
+Bounded: minimal bounding balls end to end with the real miniball (containment, minimality by brute force over support
+sets) and existence / non-existence on tangential, cyclic and generic shapes at scales 1e-3 .. 1e3.
 """
 from __future__ import annotations
 
@@ -448,136 +452,25 @@ def run(chk):
     shapes = ld.load("coxeter.shapes")
     chk.trusted += ["float64 arithmetic treated as exact real arithmetic",
                     "max / min over a symbolic number of elements are defined symbols: 'contains all, touches one' is their definition"]
-    chk.run_parallel([("curved", lambda c: curved(c, shapes)), ("centred", lambda c: centred(c, shapes)),
-                      ("lstsq", lambda c: lstsq_balls(c, shapes)),
-                      ("miniball", lambda c: c.section("minimal_bounding_balls", "coxeter.shapes.polygon::Polygon.minimal_bounding_circle[get]",
-                                                       lambda: minimal_balls(c, shapes)))])
+    from . import c13_minball as MB
+    chk.trusted += [
+        "assumed contract of miniball.get_bounding_ball(A): raises numpy.linalg.LinAlgError or returns centre and squared radius of "
+        "the smallest ball containing the rows of A (which of the two, and how often, is unconstrained; that the ball contains the "
+        "rows is NOT assumed -- the getters test it and the test is verified)",
+        "numpy.random.uniform / rowan.random.rand return an arbitrary angle / unit quaternion; rowan.rotate / conjugate are the "
+        "quaternion algebra (rotation matrix of a unit quaternion)",
+        "callee contract of _align_points_by_normal (C04) and planarity of the polygon's vertices (class invariant established by "
+        "Polygon.__init__ up to its tolerance, C15): the aligned vertices have a common z",
+    ]
+    tasks = [("curved", lambda c: curved(c, shapes)), ("centred", lambda c: centred(c, shapes)),
+             ("lstsq", lambda c: lstsq_balls(c, shapes))]
+    for which, fk in (("polyhedron", "coxeter.shapes.polyhedron::Polyhedron.minimal_bounding_sphere[get]"),
+                      ("polygon", "coxeter.shapes.polygon::Polygon.minimal_bounding_circle[get]")):
+        for label, prefixes, expand in reversed(MB.tasks_for()):
+            tasks.append((f"miniball-{which}-{label}", lambda c, which=which, fk=fk, label=label, prefixes=prefixes, expand=expand: c.section(
+                f"minimal_bounding_balls[{which}:{label}]", fk, lambda: MB.minimal_balls(c, shapes, ld, which, label, prefixes, expand))))
+    # the long tasks first
+    tasks.sort(key=lambda t: (0 if t[0].startswith("miniball-polyhedron") and t[0].endswith("...") else 1 if t[0] == "lstsq" else 2))
+    chk.run_parallel(tasks)
     from .bounded_c13 import run_bounded
     run_bounded(chk)
-
-
-def minimal_balls(chk, shapes):
-    """minimal_bounding_circle / minimal_bounding_sphere delegate to miniball.get_bounding_ball (assumed contract: centre and
-    squared radius of the smallest ball containing the rows it is given).  On the path where the solver succeeds at once
-    the result must be exactly that ball of *all* the vertices: Circle / Sphere(sqrt(r2), centre).  (The retry path rotates
-    the vertices by a random quaternion after a LinAlgError; it needs miniball to fail and is left to the bounded part.)"""
-    from pyvc import externals as ext
-    from pyvc.symarr import SymArr
-    mb = [sp.Symbol(f"mb{j}", real=True) for j in range(3)]
-    r2 = sp.Symbol("mb_r2", positive=True)
-    for cls_name, member, state in (("Polygon", "minimal_bounding_circle", "polygon"),
-                                    ("Polyhedron", "minimal_bounding_sphere", "polyhedron")):
-        klass = getattr(shapes, cls_name)
-        owner = next(k for k in klass.__mro__ if member in k.__dict__)
-        fkey = chk.function(owner.__module__, f"{owner.__name__}.{member}[get]")
-        calls = []
-
-        def hook(v, calls=calls):
-            calls.append(v)
-            return np.array([Sym(x) for x in mb], dtype=object), Sym(r2)
-
-        def is_identity(q):
-            try:
-                return [float(to_expr(x)) for x in np.asarray(q, dtype=object).reshape(-1)] == [1.0, 0.0, 0.0, 0.0]
-            except (TypeError, ValueError):
-                return False
-
-        def rotate(q, v):
-            if is_identity(q):
-                return v
-            raise paths.OutOfReach("rotation by a non-identity quaternion (retry path of the miniball loop)")
-
-        def conj(q):
-            if is_identity(q):
-                return q
-            raise paths.OutOfReach("conjugate of a non-identity quaternion")
-
-        def run():
-            calls.clear()
-            ext.HOOKS["miniball.get_bounding_ball"] = hook
-            ext.HOOKS["rowan.rotate"] = rotate
-            ext.HOOKS["rowan.conjugate"] = conj
-            if state == "polygon":
-                o = object.__new__(klass)
-                o._vertices = make("Vm", (M.NV, 3))
-                o._normal = np.array([Sym(sp.Symbol(f"nm{j}", real=True)) for j in range(3)], dtype=object)
-            else:
-                o = H.polyhedron(shapes)
-            verts = o._vertices
-            # modular: the other ball getters are known here only as "some ball" (their own contracts are proved elsewhere)
-            others = {}
-            for k in type(o).__mro__:
-                for nm, v in k.__dict__.items():
-                    if isinstance(v, property) and nm != member and nm not in others and \
-                            any(s in nm for s in ("circumcircle", "incircle", "circumsphere", "insphere", "bounded_", "centered_bounding")) \
-                            and not nm.endswith("_radius"):
-                        others[nm] = property(lambda self, nm=nm: _OpaqueBall(nm))
-            o.__class__ = type(type(o).__name__, (type(o),), others)
-            try:
-                ball = getattr(o, member)
-            except RuntimeError as e:
-                return "RuntimeError", str(e), None, None, None
-            return "ok", type(ball).__name__, ball.radius, ball.centroid, (list(calls), verts)
-        dim = M.NV if state == "polygon" else None
-        for p in chk.explore(fkey, run, assumptions=(M.NV.facts() if state == "polygon" else H.facts() if hasattr(H, "facts") else [])):
-            if p.kind != "return":
-                continue
-            t = path_tag(p)
-            kind, tname, rad, cen, extra = p.value
-            tag = f"{cls_name}.{member}"
-            if kind != "ok":
-                chk.record(f"{tag}:returns_a_ball[{t}]", fkey, "refuted", "path-enumeration", detail=str(tname)[:120], model={},
-                           replay=_replay_min_ball(cls_name, member), goal="the first-attempt path returns a ball")
-                continue
-            got_calls, verts = extra
-            same = len(got_calls) == 1 and (got_calls[0] is verts or (isinstance(got_calls[0], SymArr) and isinstance(verts, SymArr)
-                                                                      and got_calls[0].axes == verts.axes
-                                                                      and all(to_expr(a) == to_expr(b) for a, b in
-                                                                              zip(got_calls[0].inner.reshape(-1), verts.inner.reshape(-1)))))
-            chk.record(f"{tag}:is_the_miniball_of_all_vertices[{t}]", fkey, "proved" if same else "refuted", "call-trace",
-                       detail=f"{len(got_calls)} calls of miniball.get_bounding_ball", model={}, replay=_replay_min_ball(cls_name, member),
-                       goal="miniball.get_bounding_ball is called once, with the shape's vertex array", abstracted=True)
-            chk.record(f"{tag}:returns_{'Circle' if state == 'polygon' else 'Sphere'}[{t}]", fkey,
-                       "proved" if tname in ("Circle" if state == "polygon" else "Sphere", "_OpaqueBall") else "refuted", "type",
-                       detail=tname, model={})
-            chk.prove(f"{tag}:radius_is_sqrt_of_miniball_r2[{t}]", fkey, p.pc, sp.Eq(ex(rad)**2, r2), replay=_replay_min_ball(cls_name, member),
-                      abstracted=True)
-            chk.prove(f"{tag}:centre_is_miniball_centre[{t}]", fkey, p.pc, sp.And(*[sp.Eq(ex(cen[j]), mb[j]) for j in range(3)]),
-                      replay=_replay_min_ball(cls_name, member), abstracted=True)
-
-
-class _OpaqueBall:
-    """result of another ball getter: a ball about which nothing but its own contract is known"""
-
-    def __init__(self, name):
-        self.radius = Sym(sp.Symbol(f"{name}_r", positive=True))
-        self.centroid = np.array([Sym(sp.Symbol(f"{name}_c{j}", real=True)) for j in range(3)], dtype=object)
-        self.center = self.centroid
-
-
-def _replay_min_ball(cls_name, member):
-    def replay(model):
-        from .bounded_c13 import _brute_min_ball
-        from .common import real_coxeter
-        cox = real_coxeter()
-        if cls_name == "Polygon":
-            cases = [np.array([[0.0, 0, 0], [4, 0, 0], [1, 0.5, 0]]), np.array([[0.0, 0, 1], [4, 0, 1], [3.5, 1, 1], [0.2, 0.8, 1]]),
-                     np.array([[0.0, 0, 0], [1, 0, 0], [0.2, 0.9, 0]])]
-            build = [lambda P: cox.shapes.Polygon(P), lambda P: cox.shapes.ConvexPolygon(P)]
-        else:
-            cases = [np.array([[0.0, 0, 0], [4, 0, 0], [1, 0.5, 0], [2, 0.2, 0.4]]), np.array([[0.0, 0, 0], [1, 0, 0], [0, 1, 0], [0, 0, 1]])]
-            build = [lambda P: cox.shapes.ConvexPolyhedron(P)]
-        for P in cases:
-            best = _brute_min_ball(P)
-            for b in build:
-                try:
-                    ball = getattr(b(P), member)
-                except Exception as e:  # noqa: BLE001
-                    return True, {"points": P.tolist(), "member": member, "raised": f"{type(e).__name__}: {e}"[:160]}
-                r, c = float(ball.radius), np.asarray(ball.centroid, float)
-                far = float(np.linalg.norm(P - c, axis=1).max())
-                if abs(r - best) > 1e-7 * best or far > r * (1 + 1e-9):
-                    return True, {"points": P.tolist(), "member": member, "radius": r, "smallest_enclosing_radius": best,
-                                  "farthest_vertex": far}
-        return False, {}
-    return replay
